@@ -218,6 +218,26 @@ Proof.
   cbn [m_res m_ck m_ik m_ak m_aks]. rewrite !firstn_all2 by lia. reflexivity.
 Qed.
 
+(* ---- Milenage_auts = TS 33.102 6.3.5 *)
+Theorem auts_char opc k rand t :
+  length opc = 16%nat -> length k = 16%nat -> length rand = 16%nat -> length t = 14%nat ->
+  Milenage_auts E opc k rand t =
+  match auts_check E k opc rand t with
+  | Some s => AutsRet 0 s
+  | None => AutsRet (-1) (xor_bytes (firstn 6 t) (f5s E k opc rand))
+  end.
+Proof.
+  intros Ho Hk Hr Ht. unfold Milenage_auts, auts_check.
+  rewrite milenageF2345_ok, f2345_core_spec by assumption. cbn [m_res m_ck m_ik m_ak m_aks].
+  unfold short. rewrite Ht. cbn [Nat.ltb Nat.leb].
+  assert (Ls : length (xor_bytes (firstn 6 t) (f5s E k opc rand)) = 6%nat).
+  { rewrite xor_bytes_length, firstn_length, Ht, f5s_len by assumption. reflexivity. }
+  rewrite milenageF1_ok, f1_core_spec by (try assumption; cbn; lia).
+  rewrite (firstn_all2 (n:=8) (skipn 6 t)) by (rewrite skipn_length; lia).
+  change (firstn 2 [0;0]) with [0;0].
+  destruct (bytes_eqb _ _); reflexivity.
+Qed.
+
 (* ---- Milenage_check: complete characterisation on well-sized inputs *)
 Hypothesis E_ok : forall k x, bytes_ok (E k x) = true.
 
@@ -261,23 +281,133 @@ Proof.
     rewrite f1_len in Hd by assumption. rewrite Hd. unfold mac_valid. rewrite <- Hq. reflexivity.
 Qed.
 
-(* ---- Milenage_auts = TS 33.102 6.3.5 *)
-Theorem auts_char opc k rand t :
-  length opc = 16%nat -> length k = 16%nat -> length rand = 16%nat -> length t = 14%nat ->
-  Milenage_auts E opc k rand t =
-  match auts_check E k opc rand t with
-  | Some s => AutsRet 0 s
-  | None => AutsRet (-1) (xor_bytes (firstn 6 t) (f5s E k opc rand))
-  end.
+(* ---- consequences stated as in the property *)
+Lemma bytes_ok_app a b : bytes_ok a = true -> bytes_ok b = true -> bytes_ok (a ++ b) = true.
+Proof. intros Ha Hb. unfold bytes_ok in *. rewrite forallb_app, Ha, Hb. reflexivity. Qed.
+Lemma out1_ok k opc rand sqn amf : bytes_ok opc = true -> bytes_ok (out1 E k opc rand sqn amf) = true.
+Proof. intro Ho. unfold out1. apply xor_bytes_ok; [apply E_ok|exact Ho]. Qed.
+
+(* the fields of the AUTN built by the network *)
+Lemma autn_fields k opc rand sqn amf : length opc = 16%nat -> length sqn = 6%nat -> length amf = 2%nat ->
+  let a := autn E k opc rand sqn amf in
+  length a = 16%nat /\ autn_sqn E k opc rand a = sqn /\ autn_amf a = amf /\ autn_mac a = f1 E k opc rand sqn amf.
 Proof.
-  intros Ho Hk Hr Ht. unfold Milenage_auts, auts_check.
-  rewrite milenageF2345_ok, f2345_core_spec by assumption. cbn [m_res m_ck m_ik m_ak m_aks].
-  unfold short. rewrite Ht. cbn [Nat.ltb Nat.leb].
-  assert (Ls : length (xor_bytes (firstn 6 t) (f5s E k opc rand)) = 6%nat).
-  { rewrite xor_bytes_length, firstn_length, Ht, f5s_len by assumption. reflexivity. }
-  rewrite milenageF1_ok, f1_core_spec by (try assumption; cbn; lia).
-  rewrite (firstn_all2 (n:=8) (skipn 6 t)) by (rewrite skipn_length; lia).
-  change (firstn 2 [0;0]) with [0;0].
-  destruct (bytes_eqb _ _); reflexivity.
+  intros Ho Hs Ha a. subst a. unfold autn, autn_sqn, autn_conc_sqn, autn_amf, autn_mac.
+  pose proof (f5_len k opc rand Ho) as L5. pose proof (f1_len k opc rand sqn amf Ho) as L1.
+  assert (Lx : length (xor_bytes sqn (f5 E k opc rand)) = 6%nat) by (rewrite xor_bytes_length, Hs, L5; reflexivity).
+  repeat split.
+  - rewrite !app_length, Lx, Ha, L1. reflexivity.
+  - rewrite firstn_app_exact by exact Lx. apply xor_bytes_cancel. lia.
+  - rewrite skipn_app_exact by exact Lx. apply firstn_app_exact. exact Ha.
+  - rewrite app_assoc. apply skipn_app_exact. rewrite app_length, Lx, Ha. reflexivity.
+Qed.
+
+(* the AUTS a USIM builds is accepted by the network-side check and gives SQN_MS back (specification level) *)
+Lemma auts_check_auts k opc rand sqn : length opc = 16%nat -> length sqn = 6%nat ->
+  length (auts E k opc rand sqn) = 14%nat /\ auts_check E k opc rand (auts E k opc rand sqn) = Some sqn.
+Proof.
+  intros Ho Hs. unfold auts_check, auts.
+  pose proof (f5s_len k opc rand Ho) as L5. pose proof (f1s_len k opc rand sqn [0;0] Ho) as L1.
+  assert (Lx : length (xor_bytes sqn (f5s E k opc rand)) = 6%nat) by (rewrite xor_bytes_length, Hs, L5; reflexivity).
+  split; [rewrite app_length, Lx, L1; reflexivity|].
+  rewrite firstn_app_exact by exact Lx.
+  rewrite xor_bytes_cancel by lia.
+  rewrite skipn_app_exact by exact Lx.
+  rewrite bytes_eqb_refl. reflexivity.
+Qed.
+
+Section CheckIff.
+Variables opc k sqn rand a : bytes.
+Hypothesis Ho : length opc = 16%nat.
+Hypothesis Hk : length k = 16%nat.
+Hypothesis Hr : length rand = 16%nat.
+Hypothesis Hs : length sqn = 6%nat.
+Hypothesis Ha : length a = 16%nat.
+Hypothesis Oo : bytes_ok opc = true.
+Hypothesis Os : bytes_ok sqn = true.
+Hypothesis Oa : bytes_ok a = true.
+
+(* check_iff: return code 0, with RES/CK/IK of the specification, iff MAC-A is exactly f1 over the concealed
+   SQN and the AMF and that SQN is greater than the UE's; in every case RES/CK/IK are f2/f3/f4 and the
+   return code is 0, -1 or -2 *)
+Theorem check_iff :
+  exists rc t, Milenage_check E opc k sqn rand a = CheckRet rc (f2 E k opc rand) (f3 E k opc rand) (f4 E k opc rand) t /\
+    (rc = 0 \/ rc = -1 \/ rc = -2)%Z /\
+    (rc = 0%Z <-> (f1 E k opc rand (autn_sqn E k opc rand a) (autn_amf a) = autn_mac a /\
+                   sqn_val sqn < sqn_val (autn_sqn E k opc rand a))) /\
+    (rc = (-2)%Z <-> sqn_val (autn_sqn E k opc rand a) <= sqn_val sqn).
+Proof.
+  rewrite check_char by assumption. unfold sqn_fresh, mac_valid.
+  destruct (sqn_val sqn <? sqn_val (autn_sqn E k opc rand a)) eqn:F.
+  - apply N.ltb_lt in F.
+    destruct (bytes_eqb _ _) eqn:M.
+    + apply bytes_eqb_eq in M. eexists; eexists; split; [reflexivity|]. repeat split; intros; try lia; try assumption.
+    + apply bytes_eqb_neq in M. eexists; eexists; split; [reflexivity|]. repeat split; intros; try lia. destruct H; contradiction.
+  - apply N.ltb_ge in F. eexists; eexists; split; [reflexivity|]. repeat split; intros; try lia.
+Qed.
+
+(* in terms of the TS 33.102 USIM procedure: 0 exactly when the USIM accepts, then with its RES, CK, IK *)
+Theorem check_accepts_iff_usim :
+  (exists t, Milenage_check E opc k sqn rand a = CheckRet 0 (f2 E k opc rand) (f3 E k opc rand) (f4 E k opc rand) t)
+  <-> usim_check E k opc rand a sqn = Accept (f2 E k opc rand) (f3 E k opc rand) (f4 E k opc rand).
+Proof.
+  rewrite check_char by assumption. unfold usim_check.
+  destruct (sqn_fresh E k opc rand a sqn), (mac_valid E k opc rand a); cbn [negb]; split;
+    [intros [t H]|intro H| intros [t H]|intro H| intros [t H]|intro H| intros [t H]|intro H];
+    try discriminate H; try reflexivity; try (eexists; reflexivity).
+Qed.
+
+(* resync: when the received SQN is not greater, the token produced is the TS 33.102 AUTS of the UE's SQN, the
+   library's own network-side check accepts it and returns the UE's SQN *)
+Theorem resync :
+  sqn_val (autn_sqn E k opc rand a) <= sqn_val sqn ->
+  exists t, Milenage_check E opc k sqn rand a = CheckRet (-2) (f2 E k opc rand) (f3 E k opc rand) (f4 E k opc rand) (Some t) /\
+    t = auts E k opc rand sqn /\ length t = 14%nat /\
+    Milenage_auts E opc k rand t = AutsRet 0 sqn /\ auts_check E k opc rand t = Some sqn.
+Proof.
+  intro F. rewrite check_char by assumption. unfold sqn_fresh.
+  assert ((sqn_val sqn <? sqn_val (autn_sqn E k opc rand a)) = false) as -> by (apply N.ltb_ge; exact F).
+  destruct (auts_check_auts k opc rand sqn Ho Hs) as [L C].
+  eexists. split; [reflexivity|]. split; [reflexivity|]. split; [exact L|].
+  rewrite auts_char by assumption. rewrite C. split; reflexivity.
+Qed.
+End CheckIff.
+
+(* generation and checking are inverse: the AUTN MilenageGenerate builds for SQN passes Milenage_check of a
+   UE whose SQN is smaller, with the same RES/CK/IK; a UE whose SQN is not smaller answers -2 *)
+Theorem generate_check_inverse opc amf k sqn rand sqn_ue :
+  length opc = 16%nat -> length k = 16%nat -> length rand = 16%nat -> length sqn = 6%nat -> length amf = 2%nat ->
+  length sqn_ue = 6%nat -> bytes_ok opc = true -> bytes_ok sqn = true -> bytes_ok amf = true -> bytes_ok sqn_ue = true ->
+  exists autn ik ck ak res, MilenageGenerate E opc amf k sqn rand 8 = GenOk autn ik ck ak res /\
+    autn = TS35206.autn E k opc rand sqn amf /\
+    (sqn_val sqn_ue < sqn_val sqn -> Milenage_check E opc k sqn_ue rand autn = CheckRet 0 res ck ik None) /\
+    (sqn_val sqn <= sqn_val sqn_ue -> exists t, Milenage_check E opc k sqn_ue rand autn = CheckRet (-2) res ck ik (Some t)).
+Proof.
+  intros Ho Hk Hr Hs Ha Hu Oo Os Oa Ou.
+  rewrite generate_spec by (try assumption; lia).
+  do 5 eexists. split; [reflexivity|]. split; [reflexivity|].
+  destruct (autn_fields k opc rand sqn amf Ho Hs Ha) as [L [Fs [Fa Fm]]].
+  assert (Ok : bytes_ok (autn E k opc rand sqn amf) = true).
+  { unfold autn. apply bytes_ok_app; [|apply bytes_ok_app].
+    - apply xor_bytes_ok; [exact Os|]. unfold f5. apply bytes_ok_firstn, outn_ok, Oo.
+    - exact Oa.
+    - unfold f1. apply bytes_ok_firstn, out1_ok, Oo. }
+  rewrite check_char by assumption. unfold sqn_fresh, mac_valid. rewrite Fs, Fa, Fm, bytes_eqb_refl.
+  split; intro F.
+  - assert ((sqn_val sqn_ue <? sqn_val sqn) = true) as -> by (apply N.ltb_lt; exact F). reflexivity.
+  - assert ((sqn_val sqn_ue <? sqn_val sqn) = false) as -> by (apply N.ltb_ge; exact F). eexists. reflexivity.
 Qed.
 End Eq.
+
+(* ---- what the faithful model does NOT satisfy: the failure class of TS 33.102 6.3.3.
+   The USIM verifies MAC-A first and only then the SQN range; Milenage_check tests the SQN first.  For an AUTN
+   that is stale AND carries a wrong MAC the standard says "MAC failure" (no AUTS is produced), the code
+   returns -2 and hands out an AUTS.  Accept/reject is unaffected.  Witness: TS 35.208 set 1, the UE already
+   at SQN, last MAC octet flipped. *)
+Require Import AES.
+Definition bad_autn1 : bytes := [85;243;40;180;53;119;185;185;74;159;250;195;84;223;175;178].
+Lemma failure_class_refuted_witness :
+  usim_check aes128 k1 opc1 rnd1 bad_autn1 sqn1 = MacFailure /\
+  Milenage_check aes128 opc1 k1 sqn1 rnd1 bad_autn1
+  = CheckRet (-2) (f2 aes128 k1 opc1 rnd1) (f3 aes128 k1 opc1 rnd1) (f4 aes128 k1 opc1 rnd1) (Some (auts aes128 k1 opc1 rnd1 sqn1)).
+Proof. vm_compute. split; reflexivity. Qed.
